@@ -1,8 +1,10 @@
-(* Proofs/DequeAbaLin.v — (the run-level theorems under the guard aba = false; node reuse allowed;
-   same structure as Proofs/DequeLinProofs.v, whose list/permutation lemmas are re-used) from the labelled step ([core_step], Proofs/DequeConcProofs.v) to the
-   run-level theorems under the no-reuse guard: chain invariant, conservation, linearizability
-   against the two-ended list, for every thread count, program and schedule
-   (Base/Conc.run_inv on the ghost-instrumented step [dq_tstep_i] of Model/DequeLin.v). *)
+(* Proofs/DequeAbaLin.v — the UNGUARDED run-level theorems for the repaired deque (link tags
+   continue across node reuse): from the labelled step ([core_step], Proofs/DequeAbaProofs.v) to the
+   chain invariant, conservation, exactly-once and linearizability against the two-ended list, for
+   every pool size, thread count, program and schedule, with unrestricted recycling of nodes
+   (Base/Conc.run_inv on the ghost-instrumented step [dq_tstep_i] of Model/DequeLin.v; the
+   list/permutation lemmas of Proofs/DequeLinProofs.v are re-used).  The ghost flag [aba] of the
+   model ("a link CAS hit a recycled node", the former guard) is proved to stay false. *)
 From Coq Require Import List NArith Bool Lia Arith Permutation.
 From Pika Require Import Base.Conc Model.IndexQueue Model.DequeSpec Model.Deque Model.DequeLin
   Proofs.DequeProofs Proofs.DequeConcDefs Proofs.DequeConcStab Proofs.DequeLinProofs
@@ -75,28 +77,18 @@ Proof.
 Qed.
 
 (* ------------------------------------------------------------------ the run-level invariant *)
-Lemma tstep_aba_mono o t g l : aba g = true -> aba (fst (dq_tstep o t g l)) = true.
-Proof.
-  intros H. assert (FA : aba (fst (fl_alloc g)) = aba g) by (unfold fl_alloc; destruct (pool g =? 0); reflexivity).
-  unfold dq_tstep, pop_load, push_load, resume. destruct (fl_alloc g) as [g1 a1]. cbn [fst] in FA.
-  repeat (match goal with |- context [match ?x with _ => _ end] => destruct x end); cbn; rewrite ?H; auto; congruence.
-Qed.
-
 Definition InvI (gg : dq_shared * dq_ghost) (ls : locals dq_local) : Prop :=
-  aba (fst gg) = false ->
+  aba (fst gg) = false /\
   exists c pend, Core (fst gg) ls c pend /\ Cons (fst gg) c pend /\ Lin (fst gg) (glin (snd gg)) ls c.
 
 Lemma invI_step o t gg (ls : locals dq_local) : InvI gg ls ->
   InvI (fst (dq_tstep_i o t gg (ls t))) (upd ls t (snd (dq_tstep_i o t gg (ls t)))).
 Proof.
-  destruct gg as [g gh], o. unfold InvI, dq_tstep_i. cbn [fst snd]. intros H.
-  pose proof (core_step t g ls) as CS.
+  destruct gg as [g gh], o. unfold InvI, dq_tstep_i. cbn [fst snd]. intros (R1 & c & pend & HC & HCo & HL).
+  pose proof (core_step t g ls c pend HC) as CS. pose proof (aba_step t g ls c pend HC R1) as AS.
   destruct (dq_tstep tt t g (ls t)) as [g' l'] eqn:E. cbn [fst snd greuse glin] in *.
-  intros R2. assert (R1 : aba g = false).
-  { destruct (aba g) eqn:EA; [|reflexivity]. pose proof (tstep_aba_mono tt t g (ls t) EA) as M. rewrite E in M.
-    cbn [fst] in M. congruence. }
-  destruct (H R1) as (c & pend & HC & HCo & HL).
-  destruct (CS c pend HC R2) as (c' & pend' & lab & HC' & HT).
+  split; [exact AS|].
+  destruct CS as (c' & pend' & lab & HC' & HT).
   exists c', pend'. split; [exact HC'|]. split.
   - eapply cons_step; eauto.
   - eapply lin_step; eauto.
@@ -120,14 +112,14 @@ Qed.
 
 Lemma init_invI k progs : InvI (dq_init k, ghost0) (dq_locals progs).
 Proof.
-  intros _. exists [], []. split; [apply init_core|]. split.
+  split; [reflexivity|]. exists [], []. split; [apply init_core|]. split.
   - unfold Cons. cbn. constructor.
   - split; [reflexivity|]. intros t. reflexivity.
 Qed.
 
-Theorem deque_guarded_main k progs sched :
+Theorem deque_main k progs sched :
   let ci := dq_run_i sched k progs in
-  aba (fst (fst ci)) = false ->
+  aba (fst (fst ci)) = false /\
   exists c pend, Core (fst (fst ci)) (snd ci) c pend /\ Cons (fst (fst ci)) c pend /\
                  Lin (fst (fst ci)) (glin (snd (fst ci))) (snd ci) c.
 Proof.
@@ -147,7 +139,7 @@ Lemma no_crash g ls c pend t : Core g ls c pend -> dpc (ls t) <> DCrashed.
 Proof. intros HC E. pose proof (co_J _ _ _ _ HC t) as HJ. unfold J in HJ. rewrite E in HJ. exact HJ. Qed.
 
 (* Michael's invariant, written out *)
-Definition chain_invariant_g (g : dq_shared) (ls : locals dq_local) (c pend : list addr) : Prop :=
+Definition chain_invariant_e (g : dq_shared) (ls : locals dq_local) (c pend : list addr) : Prop :=
   (* the anchor points at the two ends of the chain (nullptr when it is empty) *)
   al (anc g) = hd 0 c /\ ar (anc g) = List.last c 0 /\
   (* doubly linked from left to right, except possibly the outward link of the old end node
@@ -166,9 +158,9 @@ Definition chain_invariant_g (g : dq_shared) (ls : locals dq_local) (c pend : li
   (* nobody dereferenced nullptr *)
   (forall t, dpc (ls t) <> DCrashed).
 
-Lemma core_chain_invariant_g g ls c pend : Core g ls c pend -> chain_invariant_g g ls c pend.
+Lemma core_chain_invariant_e g ls c pend : Core g ls c pend -> chain_invariant_e g ls c pend.
 Proof.
-  intros HC. unfold chain_invariant_g.
+  intros HC. unfold chain_invariant_e.
   split; [apply (co_ends _ _ _ _ HC SL)|]. split; [apply (ends_far _ _ _ _ HC SL)|].
   split; [exact (co_shape _ _ _ _ HC)|]. split; [apply (co_nodup _ _ _ _ HC)|].
   split; [|split; [intros a; eapply pend_iff; eauto|intros t; eapply no_crash; eauto]].
@@ -187,22 +179,22 @@ Proof.
   - reflexivity.
 Qed.
 
-Theorem deque_chain_invariant_guarded_lemma k progs sched :
-  let ci := dq_run_i sched k progs in
-  fst (fst ci) = fst (dq_run sched k progs) /\ snd ci = snd (dq_run sched k progs) /\
-  (aba (fst (dq_run sched k progs)) = false ->
-   exists c pend, chain_invariant_g (fst (dq_run sched k progs)) (snd (dq_run sched k progs)) c pend).
+(* the ghost flag [aba] of the model is never raised: no link CAS ever succeeds against a node
+   that was freed or re-allocated since its expected value was read *)
+Theorem deque_aba_never k progs sched : aba (fst (dq_run sched k progs)) = false.
+Proof. destruct (dq_run_i_erase k progs sched) as [E1 _]. rewrite <- E1. apply (proj1 (deque_main k progs sched)). Qed.
+
+Theorem deque_chain_invariant_lemma k progs sched :
+  exists c pend, chain_invariant_e (fst (dq_run sched k progs)) (snd (dq_run sched k progs)) c pend.
 Proof.
-  cbv zeta. destruct (dq_run_i_erase k progs sched) as [E1 E2]. split; [exact E1|]. split; [exact E2|].
-  intros R. rewrite <- E1 in R. destruct (deque_guarded_main k progs sched R) as (c & pend & HC & _). rewrite E1, E2 in HC.
-  exists c, pend. apply core_chain_invariant_g. exact HC.
+  destruct (dq_run_i_erase k progs sched) as [E1 E2].
+  destruct (proj2 (deque_main k progs sched)) as (c & pend & HC & _). rewrite E1, E2 in HC.
+  exists c, pend. apply core_chain_invariant_e. exact HC.
 Qed.
 
-Theorem deque_conservation_guarded_lemma k progs sched :
-  let ci := dq_run_i sched k progs in
+Theorem deque_conservation_lemma k progs sched :
   let g := fst (dq_run sched k progs) in let ls := snd (dq_run sched k progs) in
-  aba (fst (dq_run sched k progs)) = false ->
-  exists c pend, chain_invariant_g g ls c pend /\
+  exists c pend, chain_invariant_e g ls c pend /\
     Permutation (pushed_vals (dlog g)) (popped_vals (dlog g) ++ vals g c ++ vals g pend) /\
     (forall v, (count_occ_N v (popped_vals (dlog g)) <= count_occ_N v (pushed_vals (dlog g)))%nat) /\
     ((forall t s a, dpc (ls t) <> QFree s a) ->
@@ -210,8 +202,8 @@ Theorem deque_conservation_guarded_lemma k progs sched :
     (ast (anc g) = Stable -> dq_contents (length c) g = vals g c).
 Proof.
   cbv zeta. destruct (dq_run_i_erase k progs sched) as [E1 E2].
-  intros R. rewrite <- E1 in R. destruct (deque_guarded_main k progs sched R) as (c & pend & HC & HCo & _). rewrite E1, E2 in *.
-  exists c, pend. split; [apply core_chain_invariant_g; exact HC|]. split; [exact HCo|]. split; [|split].
+  destruct (proj2 (deque_main k progs sched)) as (c & pend & HC & HCo & _). rewrite E1, E2 in *.
+  exists c, pend. split; [apply core_chain_invariant_e; exact HC|]. split; [exact HCo|]. split; [|split].
   - intros v. rewrite (count_perm v _ _ HCo), !count_app. lia.
   - intros NF. assert (pend = []).
     { destruct pend as [|a r]; [reflexivity|exfalso].
@@ -220,34 +212,33 @@ Proof.
   - apply (stable_contents _ _ _ _ HC).
 Qed.
 
-Theorem deque_linearizable_guarded_lemma k progs sched :
+Theorem deque_linearizable_lemma k progs sched :
   let ci := dq_run_i sched k progs in
   let g := fst (dq_run sched k progs) in let ls := snd (dq_run sched k progs) in
   let lin := glin (snd (fst ci)) in
-  aba (fst (dq_run sched k progs)) = false ->
-  exists c pend, chain_invariant_g g ls c pend /\
+  exists c pend, chain_invariant_e g ls c pend /\
     spec_run (log_ops lin) [] = (log_res lin, vals g c) /\
     (forall t, of_tid t lin = pending t g (ls t) ++ of_tid t (dlog g)).
 Proof.
   cbv zeta. destruct (dq_run_i_erase k progs sched) as [E1 E2].
-  intros R. rewrite <- E1 in R. destruct (deque_guarded_main k progs sched R) as (c & pend & HC & _ & HL). rewrite E1, E2 in *.
-  exists c, pend. split; [apply core_chain_invariant_g; exact HC|]. exact HL.
+  destruct (proj2 (deque_main k progs sched)) as (c & pend & HC & _ & HL). rewrite E1, E2 in *.
+  exists c, pend. split; [apply core_chain_invariant_e; exact HC|]. exact HL.
 Qed.
 
 (* one step, as a simulation of the list: what each step does to the abstract state *)
-Theorem deque_step_refines_guarded_lemma t g (ls : locals dq_local) c pend :
-  Core g ls c pend -> aba (fst (dq_tstep tt t g (ls t))) = false ->
+Theorem deque_step_refines_lemma t g (ls : locals dq_local) c pend :
+  Core g ls c pend ->
   let g' := fst (dq_tstep tt t g (ls t)) in let l' := snd (dq_tstep tt t g (ls t)) in
   exists c' pend' lab, Core g' (upd ls t l') c' pend' /\ Trans t g (ls t) c pend lab g' l' c' pend'.
-Proof. intros HC R. apply core_step; assumption. Qed.
+Proof. intros HC. apply core_step; assumption. Qed.
 
 (* a pop reports "empty" only when the abstract list is empty at its anchor load *)
-Theorem deque_empty_pop_guarded_lemma t g (ls : locals dq_local) c pend s :
-  Core g ls c pend -> aba (fst (dq_tstep tt t g (ls t))) = false ->
+Theorem deque_empty_pop_lemma t g (ls : locals dq_local) c pend s :
+  Core g ls c pend ->
   dlog (fst (dq_tstep tt t g (ls t))) = ev t (Pop s) None :: dlog g ->
   c = [] /\ al (anc g) = 0 /\ ar (anc g) = 0.
 Proof.
-  intros HC R HD. destruct (core_step t g ls c pend HC R) as (c' & pend' & lab & _ & (_ & HT & _)).
+  intros HC HD. destruct (core_step t g ls c pend HC) as (c' & pend' & lab & _ & (_ & HT & _)).
   assert (NE : forall (x : dq_ev) lg, lg = x :: lg -> False).
   { intros x lg E. apply (f_equal (@length _)) in E. cbn in E. lia. }
   assert (c = []).
@@ -260,21 +251,11 @@ Proof.
   subst c. split; [reflexivity|]. split; [apply (co_ends _ _ _ _ HC SL)|apply (co_ends _ _ _ _ HC SR)].
 Qed.
 
-Theorem deque_chain_invariant_guarded_plain k progs sched :
-  aba (fst (dq_run sched k progs)) = false ->
-  exists c pend, chain_invariant_g (fst (dq_run sched k progs)) (snd (dq_run sched k progs)) c pend.
-Proof. exact (proj2 (proj2 (deque_chain_invariant_guarded_lemma k progs sched))). Qed.
-
-(* the body of the refuted full claim [deque_exactly_once_all_schedules], under the guard *)
-Theorem deque_exactly_once_guarded_lemma k progs sched :
-  let c := run dq_tstep sched (dq_init k, dq_locals progs) in
-  let lg := dlog (fst c) in
-  aba (fst c) = false ->
-  (forall v, count_occ_N v (popped_vals lg) <= count_occ_N v (pushed_vals lg))%nat /\
-  (al (anc (fst c)) = 0 -> (forall t, dq_done (snd c t) = true) ->
-   forall v, count_occ_N v (popped_vals lg) = count_occ_N v (pushed_vals lg)).
+(* the full concurrent statement of C17 for the deque ([deque_exactly_once_all_schedules],
+   Proofs/DequeProofs.v): refuted for the code before the repair of F15, a theorem now *)
+Theorem deque_exactly_once_lemma : deque_exactly_once_all_schedules.
 Proof.
-  cbv zeta. intros AB. destruct (deque_conservation_guarded_lemma k progs sched AB) as (c & pend & CI & _ & LE & NF & _).
+  intros k progs sched. cbv zeta. destruct (deque_conservation_lemma k progs sched) as (c & pend & CI & _ & LE & NF & _).
   fold (dq_run sched k progs). split; [exact LE|]. intros Hal Hdone v.
   destruct CI as (Eh & _ & _ & _ & Hpos & _).
   assert (c = []).
